@@ -90,3 +90,13 @@ Proof.
       { induction l as [|x l IHl]; intros [|y m] L0; simpl in *; try discriminate; [reflexivity|]. f_equal. apply IHl. lia. }
       rewrite Q; [apply Permutation_refl|]. rewrite !map_length, seq_length. reflexivity.
 Qed.
+
+(* the key the sorter computes for a row whose (single) key field holds a number is nkey of its dyadic form *)
+Lemma key_calc_numeric f r v me :
+  rget r f = Some v -> dyadic_of v = Some me ->
+  (match v with VStr _ | VNull => False | _ => True end) ->
+  key_calc [f] r = Ok (nkey me).
+Proof.
+  intros G D NS. cbn [key_calc]. rewrite G. unfold enc_field. destruct me as [m e].
+  destruct v; try contradiction; rewrite D; cbn [key_calc]; rewrite app_nil_r; reflexivity.
+Qed.
